@@ -28,7 +28,12 @@ def build_ll(ctx, key, harness, units, atomics='gcc_new', defines=()):
     srcs = [harness if os.path.isabs(harness) else os.path.join(HE3, harness)] + [vf.repo_path(u) for u in units]
     for s in srcs:
         b = os.path.join(d, re.sub(r'[^A-Za-z0-9_.]', '_', os.path.relpath(s, '/')) + '.bc')
-        rc, o, e, w, _ = vf.run(['clang-14', '-O0', '-Xclang', '-disable-O0-optnone', '-emit-llvm', '-c', '-w'] + incs + ['-D%s' % x for x in defines] + [s, '-o', b + '.raw'], timeout=300)
+        if s.endswith('.cc'):
+            # the C++ build of the CMake project: platform/c++11 first, NSYNC_USE_CPP11_TIMEPOINT, NSYNC_ATOMIC_CPP11
+            cc = ['clang++-14', '-std=c++11', '-fno-exceptions', '-fno-rtti', '-DNSYNC_USE_CPP11_TIMEPOINT', '-DNSYNC_ATOMIC_CPP11', '-I', vf.repo_path('platform/c++11')]
+        else:
+            cc = ['clang-14']
+        rc, o, e, w, _ = vf.run(cc + ['-O0', '-Xclang', '-disable-O0-optnone', '-emit-llvm', '-c', '-w'] + incs + ['-D%s' % x for x in defines] + [s, '-o', b + '.raw'], timeout=300)
         if rc != 0:
             raise RuntimeError('clang failed on %s: %s' % (s, e[-1500:]))
         rc, o, e, w, _ = vf.run(['opt-14', '-passes=sroa,mem2reg,early-cse,simplifycfg,adce', b + '.raw', '-o', b], timeout=300)
